@@ -113,6 +113,30 @@ func init() {
 						}
 					}
 				}
+				// a parser's answer for a host does not depend on what it parsed before: the same host spelling in consecutive
+				// calls of different kinds (opaque host of a non-special URL, domain of a special URL, file host, as base and
+				// as reference) on ONE parser value, each compared with the answer of a parser that has parsed nothing yet
+				if i%4 == 2 {
+					hs := r.spell(cps, []int{0, 3}[i/4%2], true)
+					one := url.NewParser()
+					for k, in := range []string{"sc://" + hs + "/p", sc + "://" + hs + rest, "sc://" + hs + "/p", "file://" + hs + "/p", sc + "://" + hs + rest, "sc://" + hs + "/p"} {
+						got := implParse(one, nil, in)
+						want := implParse(url.NewParser(), nil, in)
+						c.Count("seq\x00"+in, true, "host-sequences")
+						if diff := obsEq(want, got, urlFieldsOnly); diff != "" {
+							c.Report(Finding{Class: "violation", What: fmt.Sprintf("the result for %q depends on what the parser parsed before (call %d of a sequence with the same host spelling): %s", in, k+1, diff),
+								Case: Case{Kind: "parse", Cfg: defaultCfg.Desc, Input: in, Family: "host-sequences", Index: i, Extra: map[string]string{"previous": "sc://" + hs + "/p"}}, Host: want.Fields0(fHostname)})
+							break
+						}
+					}
+					b := "sc://" + hs + "/b"
+					got := implParse(one, &b, sc+"://"+hs+rest)
+					want := implParse(url.NewParser(), &b, sc+"://"+hs+rest)
+					if diff := obsEq(want, got, urlFieldsOnly); diff != "" {
+						c.Report(Finding{Class: "violation", What: fmt.Sprintf("resolving %q against %q depends on what the parser parsed before: %s", sc+"://"+hs+rest, b, diff),
+							Case: Case{Kind: "parse", Cfg: defaultCfg.Desc, Base: &b, Input: sc + "://" + hs + rest, Family: "host-sequences", Index: i}, Host: want.Fields0(fHostname)})
+					}
+				}
 				// file URL: localhost in any spelling is the empty host
 				if sc == "file" && i%4 == 0 {
 					lh := r.spell(strings.Split("localhost", ""), r.Intn(6), true)
